@@ -460,6 +460,18 @@ func (r *Report) buildReplay(o *Obligation) (*replayPlan, error) {
 		fmt.Fprintf(&body, "\t__old%d := %s\n", i, oe)
 	}
 	if vc.replayFn != nil {
+		// the input built from the model must satisfy the contract's precondition on the real code, otherwise a
+		// failure of the call proves nothing: every requires clause is compiled and checked first
+		if c := eng.contracts[vc.replayFn.Key]; c != nil {
+			var olds3 []string
+			for _, rq := range c.Requires {
+				g, err := specToGo(rq.E, &olds3)
+				if err != nil || len(olds3) > 0 {
+					return nil, fmt.Errorf("precondition %q is not executable; the model cannot be validated against it", rq.Text)
+				}
+				fmt.Fprintf(&body, "\tif !(%s) {\n\t\tt.Skip(\"the input built from the model does not satisfy the precondition\")\n\t}\n", g)
+			}
+		}
 		fmt.Fprintf(&body, "\tdefer func() {\n\t\tif r := recover(); r != nil {\n\t\t\tt.Fatalf(\"REPLAY-VIOLATION panic: %%v\", r)\n\t\t}\n\t}()\n")
 		nres := vc.replayFn.Obj.Type().(*types.Signature).Results().Len()
 		if nres > 0 {
